@@ -34,6 +34,9 @@ const F_SYNC: u8 = 1;
 const F_FULL: u8 = 2;
 const F_FINISH: u8 = 3;
 const F_PARTIAL: u8 = 4;
+/// pseudo flush value: the action is CompressorOxide::reset() - whatever stream was in progress is
+/// dropped (its output is discarded) and the rest of the input becomes a new stream
+const F_RESET: u8 = 100;
 
 #[derive(Clone, Copy, Debug, PartialEq, Eq)]
 pub enum Entry {
@@ -69,8 +72,10 @@ pub struct St {
     /// the previous call left output room unused (nothing pending from before)
     pub prev_room_left: bool,
     pub full_points: Vec<FlushPoint>,
-    /// Adler-32 (by definition) of input[..ip], kept incrementally
+    /// Adler-32 (by definition) of input[base..ip], kept incrementally
     pub adler_ref: u32,
+    /// input offset where the current stream started (moves at every reset())
+    pub base: usize,
 }
 
 #[cfg(feature = "hooks")]
@@ -106,7 +111,7 @@ fn mz_of(f: u8) -> MZFlush {
 
 impl<'a> CompModel<'a> {
     pub fn init(&self) -> St {
-        St { c: Box::new(self.cfg.make()), ip: 0, out: vec![], declared: None, done: false, bad: false, idle: 0, calls: 0, prev_room_left: true, full_points: vec![], adler_ref: 1 }
+        St { c: Box::new(self.cfg.make()), ip: 0, out: vec![], declared: None, done: false, bad: false, idle: 0, calls: 0, prev_room_left: true, full_points: vec![], adler_ref: 1, base: 0 }
     }
     fn rp(&self, path: &[Act]) -> Value {
         json!({"input_hex": if self.input.len() <= 4096 { json!(hex(self.input)) } else { Value::Null }, "input_name": self.name, "cfg": self.cfg.to_json(), "entry": format!("{:?}", self.entry),
@@ -125,9 +130,9 @@ impl<'a> CompModel<'a> {
     /// Terminal oracle: one stream, decodes to the declared input; Full-flush history cuts.
     fn check_done(&self, s: &St, path: &[Act]) {
         let end = s.declared.unwrap_or(self.input.len());
-        let want = &self.input[..end];
+        let want = &self.input[s.base..end];
         if s.ip != end {
-            self.viol("C02", "done-input-left", format!("Done with {} of {} declared input bytes consumed", s.ip, end), path);
+            self.viol("C02", "done-input-left", format!("Done with {} of {} declared input bytes consumed", s.ip - s.base, end - s.base), path);
             return;
         }
         let mut o = Opts::fmt(self.cfg.zlib);
@@ -233,6 +238,9 @@ impl<'a> Model for CompModel<'a> {
             for &cap in &self.caps {
                 out.push(Act { k: REST, cap, flush: F_FINISH });
             }
+            if !self.flushes.is_empty() {
+                out.push(Act { k: 0, cap: 0, flush: F_RESET });
+            }
             return;
         }
         for &f in &self.flushes {
@@ -242,10 +250,26 @@ impl<'a> Model for CompModel<'a> {
                 }
             }
         }
+        if !self.flushes.is_empty() && s.calls > 0 {
+            out.push(Act { k: 0, cap: 0, flush: F_RESET });
+        }
     }
 
     fn step(&self, s: &mut St, a: Act, path: &[Act]) -> bool {
         watchdog::pulse();
+        if a.flush == F_RESET {
+            self.count("resets");
+            s.c.reset();
+            s.base = s.ip;
+            s.out.clear();
+            s.declared = None;
+            s.prev_room_left = true;
+            s.full_points.clear();
+            s.adler_ref = 1;
+            s.calls += 1;
+            s.idle += 1;
+            return true;
+        }
         let flush_i = if s.declared.is_some() { F_FINISH } else { a.flush };
         let limit = s.declared.unwrap_or(self.input.len());
         let left = limit - s.ip;
@@ -313,7 +337,7 @@ impl<'a> Model for CompModel<'a> {
         if self.cfg.zlib {
             let want = s.adler_ref;
             if s.c.adler32() != want {
-                fail!("C16", "running-adler", "CompressorOxide::adler32() = {:08x} after consuming {} bytes, Adler-32 of those bytes is {:08x}", s.c.adler32(), s.ip, want);
+                fail!("C16", "running-adler", "CompressorOxide::adler32() = {:08x} after consuming {} bytes, Adler-32 of those bytes is {:08x}", s.c.adler32(), s.ip - s.base, want);
             }
         }
         let room_left = written < cap_eff;
@@ -331,11 +355,11 @@ impl<'a> Model for CompModel<'a> {
             let mut o = Opts::fmt(self.cfg.zlib);
             o.keep_tokens = false;
             let t = ref_inflate(&s.out, &o);
-            let ok = matches!(t.verdict, Verdict::Starved(_)) && t.out == self.input[..s.ip];
+            let ok = matches!(t.verdict, Verdict::Starved(_)) && t.out == self.input[s.base..s.ip];
             if !ok {
                 fail!("C12", &format!("flush-point-not-decodable/{}", ["", "sync", "full", "", "partial"][flush_i as usize]),
                     "after a {} flush the {} bytes emitted so far decode to {} bytes ({:?}); {} input bytes were supplied",
-                    ["", "Sync", "Full", "", "Partial"][flush_i as usize], s.out.len(), t.out.len(), t.verdict, s.ip);
+                    ["", "Sync", "Full", "", "Partial"][flush_i as usize], s.out.len(), t.out.len(), t.verdict, s.ip - s.base);
             }
             if flush_i != F_PARTIAL {
                 let n = s.out.len();
@@ -344,15 +368,15 @@ impl<'a> Model for CompModel<'a> {
                 }
             }
             if flush_i == F_FULL {
-                s.full_points.push(FlushPoint { kind: flush_i, out_len: s.out.len(), in_len: s.ip });
+                s.full_points.push(FlushPoint { kind: flush_i, out_len: s.out.len(), in_len: s.ip - s.base });
             }
-        } else if flush_i == F_FULL && s.prev_room_left && consumed == k && s.ip <= 20_000 && self.entry != Entry::Callback {
+        } else if flush_i == F_FULL && s.prev_room_left && consumed == k && s.ip - s.base <= 20_000 && self.entry != Entry::Callback {
             // a Full flush whose own output did not fit the caller's buffer: with at most 20000 bytes
             // consumed since the start no block was cut before, so this call did perform the flush;
             // the history cut must hold at this input offset (standalone decoding is not checked:
             // the byte offset of the cut is only known once the marker has been drained)
             self.count("full_flush_points_unqualified");
-            s.full_points.push(FlushPoint { kind: 99, out_len: usize::MAX, in_len: s.ip });
+            s.full_points.push(FlushPoint { kind: 99, out_len: usize::MAX, in_len: s.ip - s.base });
         }
         s.prev_room_left = room_left;
         s.idle = if progressed { 0 } else { s.idle + 1 };
@@ -625,6 +649,8 @@ pub fn explore(rep: &Report, prop: &str, th: bool) -> Explored {
                     }
                     v
                 };
+                let mut alts = alts;
+                alts.push(Act { k: 0, cap: 0, flush: F_RESET });
                 let mut ds = DevSearch::new(&m, pol, alts, 100_000, u64::MAX);
                 ds.stride = match p { 0 | 1 => 1, 2 => if th { 4 } else { 16 }, _ => if th { 16 } else { 64 } };
                 ds.run(m.init(), 1);
@@ -694,6 +720,35 @@ pub fn explore(rep: &Report, prop: &str, th: bool) -> Explored {
                         }
                     }
                 }
+                // [any first call] [reset()] [rest under Finish]: a stream abandoned after one call of
+                // every kind (pending lazy match, unflushed block, unaligned block end, pending output,
+                // declared end), then the remaining input as a new stream on the recycled object
+                for &f1 in &[F_NONE, F_SYNC, F_FULL, F_FINISH, F_PARTIAL, 5, 6, 7] {
+                    for &k1 in &[0u32, 1, 2, 257, 258, 259, n / 2, n - 1, REST] {
+                        for &cap1 in &[1u32, 5, 100, LARGE] {
+                            for &cap2 in &[LARGE, 7] {
+                                let mut st = m.init();
+                                let mut path = vec![];
+                                let mut alive = true;
+                                for a in [Act { k: k1, cap: cap1, flush: f1 }, Act { k: 0, cap: 0, flush: F_RESET }] {
+                                    path.push(a);
+                                    acc.stats.transitions += 1;
+                                    if !m.step(&mut st, a, &path) {
+                                        alive = false;
+                                        break;
+                                    }
+                                }
+                                while alive && !m.terminal(&st) && path.len() < 4000 {
+                                    let a = Act { k: REST, cap: cap2, flush: F_FINISH };
+                                    path.push(a);
+                                    acc.stats.transitions += 1;
+                                    alive = m.step(&mut st, a, &path);
+                                }
+                                acc.stats.executions += 1;
+                            }
+                        }
+                    }
+                }
                 acc.runs += 1;
                 for (k, v) in m.cov.lock().unwrap().iter() {
                     *acc.cov.entry(k).or_insert(0) += v;
@@ -758,6 +813,7 @@ pub fn explore(rep: &Report, prop: &str, th: bool) -> Explored {
                         alts.push(Act { k, cap, flush: f });
                     }
                 }
+                alts.push(Act { k: 0, cap: 0, flush: F_RESET });
                 let mut ds = DevSearch::new(&m, pol, alts, 2_000_000, u64::MAX);
                 // tiny-chunk policies make tens of thousands of calls: deviate at a spread of indexes
                 ds.stride = if pol.k != REST && pol.k < 1000 { if th { 2003 } else { 9973 } } else if pol.cap < 2000 { if th { 3 } else { 11 } } else { 1 };
